@@ -63,7 +63,13 @@ var res Results
 var resMu sync.Mutex
 
 // outcome code carried in the request (get's id argument / fire's n): the scripted handler obeys it
-var outcomeOf = map[string]int64{"ok": 0, "declared": 1, "undeclared": 2, "appex": 3, "oneway": 0, "onewayfail": 2}
+var outcomeOf = map[string]int64{"ok": 0, "overlimit": 0, "declared": 1, "undeclared": 2, "appex": 3, "oneway": 0, "onewayfail": 2}
+
+// requests of kind "overlimit": an ordinary successful call whose caller accepts only a reply of a few bytes (HTTP:
+// x-frugal-payload-limit; the other servers have no caller-side limit and answer it like any call)
+var limited sync.Map
+
+func isLimited(r []byte) bool { _, ok := limited.Load(string(r)); return ok }
 
 func script(method string, n int, args []interface{}) rig.Outcome {
 	var code int64
@@ -94,7 +100,7 @@ func request(pf *frugal.FProtocolFactory, proto, kind string, seq int, opid uint
 	p.WriteRequestHeader(fc)
 	ctx := context.Background()
 	switch kind {
-	case "ok", "declared", "undeclared", "appex":
+	case "ok", "overlimit", "declared", "undeclared", "appex":
 		p.WriteMessageBegin(ctx, "get", thrift.CALL, 0)
 		a := verifrpc.StoreGetArgs{ID: verifrpc.ID(int64(seq)*10 + outcomeOf[kind])}
 		a.Write(ctx, p)
@@ -386,10 +392,13 @@ func httpSender(url string) sender {
 	hc := &http.Client{Timeout: 3 * time.Second}
 	return func(reqs [][]byte, twoWay int) ([][]byte, string) {
 		var out [][]byte
-		for _, r := range reqs {
+		for ri, r := range reqs {
 			req, _ := http.NewRequest("POST", url, bytes.NewReader([]byte(base64.StdEncoding.EncodeToString(wire.Frame(r)))))
 			req.Header.Set("Content-Type", "application/x-frugal")
 			req.Header.Set("Content-Transfer-Encoding", "base64")
+			if isLimited(r) {
+				req.Header.Set("x-frugal-payload-limit", "8")
+			}
 			resp, err := hc.Do(req)
 			if err != nil {
 				return out, "http: " + err.Error()
@@ -397,7 +406,7 @@ func httpSender(url string) sender {
 			body, _ := io.ReadAll(resp.Body)
 			resp.Body.Close()
 			if resp.StatusCode != 200 {
-				out = append(out, []byte(fmt.Sprintf("HTTP-STATUS-%d", resp.StatusCode)))
+				out = append(out, []byte(fmt.Sprintf("HTTP-STATUS-%d:%d", resp.StatusCode, ri+1)))
 				continue
 			}
 			b, err := base64.StdEncoding.DecodeString(string(body))
@@ -464,6 +473,20 @@ func runCase(env *rig.Env, send sender, c Case, label string, ordered bool) {
 	for i, k := range c.Kinds {
 		ids[i] = nextOp()
 		reqs = append(reqs, request(pf, env.Proto, k, seqBase+i+1, ids[i]))
+		if k == "overlimit" {
+			limited.Store(string(reqs[i]), true)
+		}
+	}
+	// Server!ReplyOf("overlimit"): refused with the transport's "too large" status where the caller can state a limit
+	// (HTTP 413, no frame), an ordinary reply everywhere else
+	if env.Kind != "http" {
+		rs := append([]Reply(nil), c.Replies...)
+		for i := range rs {
+			if rs[i].Type == "LIMIT" {
+				rs[i].Type, rs[i].What = "REPLY", "result"
+			}
+		}
+		c.Replies = rs
 	}
 	replay := map[string]interface{}{"server": label, "protocol": env.Proto, "case": c}
 	fail := func(key, text string) {
@@ -499,6 +522,11 @@ func runCase(env *rig.Env, send sender, c Case, label string, ordered bool) {
 	}
 	var got []Reply
 	for _, m := range raw {
+		if bytes.HasPrefix(m, []byte("HTTP-STATUS-413:")) {
+			n, _ := strconv.Atoi(string(m[len("HTTP-STATUS-413:"):]))
+			got = append(got, Reply{n, "LIMIT", "refused-or-result"})
+			continue
+		}
 		p := parseReply(pf, m)
 		if p.Err != "" {
 			fail("reply-malformed", fmt.Sprintf("a reply frame could not be parsed (%s): % x", p.Err, m[:min(len(m), 64)]))
